@@ -821,7 +821,7 @@ Proof.
       assert (HlastLeft : lastLeft = M - sG) by (unfold lastLeft; lia).
       apply (main_fmt1 enc names Hlen Hgids Hnames Hcodes flag ss rest Hflag Hss).
       + unfold ss. cbn [rev]. rewrite (seg_assign_app enc Hlen), I4, I5. cbn [seg_assign]. rewrite app_nil_r.
-        Show.
+        fold M.
         replace (N.to_nat M) with (N.to_nat (sG - 1) + N.to_nat (M - sG + 1))%nat by lia.
         rewrite MA_app. f_equal.
         replace (1 + N.of_nat (N.to_nat (sG - 1))) with sG by lia.
@@ -842,15 +842,15 @@ Proof.
     intros Hb; inversion Hb; subst bs; clear Hb.
     rewrite M_encoding_read_unfold, Hhd, Hmain. cbn [obind].
     assert (Hf128 : 128 <=? (if fmt then flag else 1 + flag) = false).
-    { unfold flag. rewrite HX0. cbn [N.eqb]. destruct fmt; reflexivity. }
+    { unfold flag. try rewrite (proj2 (N.eqb_eq _ _) HX0). destruct fmt; reflexivity. }
     rewrite Hf128. apply lenN_zero in HX0. fold X in Hfinal. rewrite HX0 in Hfinal.
-    cbn [apply_assigns] in Hfinal. rewrite Hfinal. reflexivity.
+    cbn [apply_assigns] in Hfinal. Show. rewrite Hfinal. reflexivity.
   - destruct (enc_extra_bytes X names) as [eb| | |] eqn:Eb; cbn [obind]; try discriminate.
     intros Hb; inversion Hb; subst bs; clear Hb.
     rewrite <- app_assoc.
     rewrite M_encoding_read_unfold, Hhd, Hmain. cbn [obind].
     assert (Hf128 : 128 <=? (if fmt then flag else 1 + flag) = true).
-    { unfold flag. destruct (N.eqb_spec (lenN X) 0); [lia|]. destruct fmt; reflexivity. }
+    { unfold flag. try rewrite (proj2 (N.eqb_neq _ _) HX0). destruct fmt; reflexivity. }
     rewrite Hf128. rewrite <- app_assoc. cbn [app rd_u8].
     assert (HXne : X <> []) by (intros E; rewrite E in HX0; cbn in HX0; lia).
     pose proof (X_len enc names Hlen Hgids Hnames HXne) as HXl. fold X in HXl.
